@@ -78,7 +78,10 @@ def run(ctx) -> None:
     ctx.rule("C09.R1-separator-agreement", "compile_reference and the parsers agree on ':' (method), '/' (file) and 'stage<N>.' (stage prefix)")
     ctx.rule("C09.R2-sibling-classifiers", "ParseDataReferenceFull and is_datareference_to_component classify with the same formula; "
                                            "expand_potential_component_reference never expands variables, reserved first segments without stage prefix, or producers containing a path separator")
-    ctx.rule("C09.R3-reserved-sets", "reserved folders always include FlowIR.SpecialFolders and application dependencies are mapped to their names")
+    ctx.rule("C09.R3-reserved-sets", "on every path the collection a classifier consults includes FlowIR.SpecialFolders, the caller's folders and "
+             "(where the function takes them) the application-dependency names; application dependencies are mapped to their names")
+    ctx.rule("C09.R6-reserved-constants-immutable", "the class-level collections of FlowIR (SpecialFolders, ...) are never mutated in place, "
+             "directly or through an uncopied local alias")
     ctx.rule("C09.R4-first-path-segment", "the first segment of a manifest key is taken with the path separator; os.pathsep is used only on environment values")
     ctx.rule("C09.R5-absolute-paths", "a producer starting with '/' never has a stage index")
 
@@ -204,26 +207,86 @@ def run(ctx) -> None:
            construct="references_component = force_expand", trivial=True)
 
     # ---------------- R3 -------------------------------------------------------------------------------
-    for fn, name in ((pdf, "ParseDataReferenceFull"), (idc, "is_datareference_to_component")):
-        res_names = match.locals_where(fn, lambda v: "SpecialFolders" in source.src(v))
-        vals = [v for nm in (res_names or ["special_folders"]) for v in match.assigned_value(fn, nm)]
-        def addends(e):
-            if isinstance(e, ast.BinOp) and isinstance(e.op, ast.Add):
-                return addends(e.left) + addends(e.right)
-            return [e]
-        ok = bool(vals) and all(any((dotted(a) or "").endswith("SpecialFolders") for a in addends(v)) for v in vals)
-        ctx.ob("C09.R3-reserved-sets", vals[-1] if vals else fn, ok, "%s always reserves FlowIR.SpecialFolders" % name if ok else
-               "%s can classify without FlowIR.SpecialFolders in the reserved set" % name)
+    # INCL engine: what the collection that a classifier consults is guaranteed to include on every path
+    from vlib import incl, state
+
+    def leaf(e: ast.AST) -> Optional[str]:
+        if isinstance(e, ast.Attribute) and e.attr == "SpecialFolders":
+            return "SPECIAL"
+        if isinstance(e, (ast.ListComp, ast.GeneratorExp, ast.Call)) and any(
+                isinstance(c, ast.Call) and last_attr(c) == "application_dependency_to_name" for c in ast.walk(e)) \
+                and not (isinstance(e, ast.Call) and (call_name(e) or "").split(".")[-1] in incl.COPIES):
+            return "APPDEP"
+        return None
+    FOLDER_PARAMS = ("top_level_folders", "special_folders")
+    NAMES = {"SPECIAL": "FlowIR.SpecialFolders", "APPDEP": "the application-dependency folder names",
+             "P:top_level_folders": "the caller's top_level_folders", "P:special_folders": "the caller's special_folders"}
+    n_sites = 0
+    users = [f for q, f in m.functions.items() if q.startswith("FlowIR.") and f not in (pdf, idc, ecr) and any(
+        isinstance(c, ast.Call) and last_attr(c) == "expand_potential_component_reference" for c in source.walk_own(f))]
+    for fn in [pdf, idc, ecr] + users:
+        params = {a.arg for a in fn.args.args + fn.args.kwonlyargs}
+        required = {"SPECIAL"} | {"P:" + p for p in FOLDER_PARAMS if p in params} | ({"APPDEP"} if "application_dependencies" in params else set())
+        an = incl.Inclusion(fn, leaf, [p for p in FOLDER_PARAMS + ("application_dependencies",) if p in params],
+                            empty_with={"P:application_dependencies": ["APPDEP"]})
+        ctx.analysed(fn)
+        sites: List[ast.AST] = []
+        job = classifier_roles(fn)["job"]
+        for n in source.walk_own(fn):
+            # <producer name> in <collection>
+            cp = match.compare_parts(n) if isinstance(n, ast.Compare) else None
+            if cp and isinstance(cp[1], (ast.In, ast.NotIn)) and source.src(cp[0]) == job and isinstance(cp[2], ast.Name):
+                sites.append(cp[2])
+            # the reserved folders handed to the classifier
+            if isinstance(n, ast.Call) and last_attr(n) == "expand_potential_component_reference":
+                arg = next((k.value for k in n.keywords if k.arg == "top_level_folders"), n.args[3] if len(n.args) > 3 else None)
+                # an explicit None is the callee's "no folder information" protocol: acceptable only where the caller has none
+                if arg is not None and not (isinstance(arg, ast.Constant) and arg.value is None and not (required - {"SPECIAL"})
+                                            and fn not in (pdf, idc, ecr)):
+                    sites.append(arg)
+        for sx in sites:
+            got = an.at(sx)
+            ctx.require(got is not None, "cannot locate the reserved-folder collection %s of %s in its CFG" % (short(sx, 40), fn.name))
+            n_sites += 1
+            missing = sorted(required - got)
+            ok = not missing
+            ctx.ob("C09.R3-reserved-sets", sx, ok,
+                   "%s classifies against a collection that includes %s on every path" % (fn.name, ", ".join(NAMES[r] for r in sorted(required))) if ok else
+                   "%s can classify a reference against a collection that does not include %s: a reference such as 'data/file:ref' or "
+                   "'<top-level folder>/x:copy' is then taken for a component in one place and for a path in another"
+                   % (fn.name, " and ".join(NAMES[r] for r in missing)),
+                   construct="%s: reserved collection %s includes %s" % (fn.name, short(sx, 30), "+".join(sorted(required))))
+    ctx.floor("C09.R3-reserved-sets", n_sites, 4, "reserved-folder collections consulted by the classifiers and their callers")
     vals = [v for nm in match.locals_where(pdf, lambda v: "application_dependency_to_name" in source.src(v)) for v in match.assigned_value(pdf, nm)]
     ok = any("application_dependency_to_name" in source.src(v) for v in vals)
     ctx.ob("C09.R3-reserved-sets", vals[0] if vals else pdf, ok, "application dependencies are mapped to their folder names" if ok else
            "application dependencies are compared without application_dependency_to_name")
-    ADF = match.role(ecr, lambda v: "application_dependency_to_name" in source.src(v), "app_dep_folders")
-    tl = [v for nm in (match.locals_where(ecr, lambda v: "SpecialFolders" in source.src(v)) or ["top_level_folders"]) for v in match.assigned_value(ecr, nm)]
-    ok = any("SpecialFolders" in source.src(v) and ADF in source.names_in(v) for v in tl) and any(
-        "application_dependency_to_name" in source.src(v) for v in match.assigned_value(ecr, ADF))
-    ctx.ob("C09.R3-reserved-sets", tl[0] if tl else ecr, ok, "expand_component_references reserves top-level folders + application dependencies + special folders" if ok else
-           "expand_component_references no longer reserves all of top-level folders, application dependencies and special folders")
+
+    # ---------------- R6 -------------------------------------------------------------------------------
+    # STATE engine: the class-level collections (SpecialFolders, data_reference_methods, ...) are shared by every call: no
+    # function of flowir.py mutates one in place, directly or through a local bound to it without a copy
+    cls_nodes = [c for c in ast.walk(m.tree) if isinstance(c, ast.ClassDef) and c.name == "FlowIR"]
+    ctx.require(bool(cls_nodes), "anchor missing: class FlowIR")
+    consts = state.class_mutable_constants(cls_nodes[0])
+    ctx.require("SpecialFolders" in consts, "anchor missing: FlowIR.SpecialFolders is no longer a class-level list/set display")
+    n_fn = 0
+    hits = []
+    for q, f in m.functions.items():
+        if not any(isinstance(x, ast.Attribute) and x.attr in consts for x in ast.walk(f)):
+            continue
+        n_fn += 1
+        for (node, cname, how) in state.shared_constant_mutations(f, consts, {"FlowIR"}):
+            hits.append((q, node, cname, how))
+    for (q, node, cname, how) in hits:
+        ctx.ob("C09.R6-reserved-constants-immutable", node, False,
+               "%s mutates the class-level collection FlowIR.%s in place (%s through a name bound to it without a copy): the folders of one "
+               "workflow stay reserved for every workflow loaded later in the process, so the same reference string is classified "
+               "differently depending on what was loaded before" % (q, cname, how), construct="%s: in-place mutation of FlowIR.%s" % (q, cname))
+    if not hits:
+        ctx.ob("C09.R6-reserved-constants-immutable", cls_nodes[0], True,
+               "none of the %d functions that read a class-level collection of FlowIR (%s) mutates it in place" % (n_fn, ", ".join(sorted(consts))),
+               construct="class-level collections of FlowIR are never mutated in place")
+    ctx.floor("C09.R6-reserved-constants-immutable", n_fn, 5, "functions reading class-level collections of FlowIR")
 
     # ---------------- R4 -------------------------------------------------------------------------------
     tlf = m.func("Manifest.top_level_folders")
